@@ -75,7 +75,7 @@ async def compare_all(g, inv, part, fam, tag, case, step):
 def run_cfg(cfg, part, port, seed, history=None):
     g = env.goodwe()
     rnd = random.Random(seed)
-    style = rnd.choice(("random", "mixed", "sentinel", "random"))
+    style = rnd.choice(("random", "mixed", "sentinel", "random", "ff"))
     sim = configs.make_sim(cfg, rnd=rnd, style=style)
     fam = cfg["family"]
     tag = f"{fam} {cfg['tag']} rated={cfg['rated']} refused={cfg['refused']} battery={cfg['battery']} port={port} {style}"
